@@ -399,6 +399,13 @@ func vLiveGoroutines(prefix string) int {
 	return cnt
 }
 
+// vSyncMapSnapshot: keys and values of a sync.Map, alternating (natively through Range).
+func vSyncMapSnapshot(m *sync.Map) []interface{} {
+	var out []interface{}
+	m.Range(func(k, v interface{}) bool { out = append(out, k, v); return true })
+	return out
+}
+
 func vUF32(name string, args ...uint64) uint32 {
 	key := name + "("
 	for i, a := range args {
